@@ -2,7 +2,7 @@
    Only property theorems, each closed by quoting lemmas proved elsewhere, and Print Assumptions.
    Generated from Properties/bodies/C04.v.in by mkprop.py (shared preamble: hdr.txt, sec.txt). *)
 From Coq Require Import Arith NArith Bool List Lia.
-Require Import Canon SemTk CountTk TableProto BddBase BddIte BddCR BddSat BddCof BddCof2 BddCtor BddEval BddPaths BddPathsCount BddReach BddExport BddDot BddMinimal BddTerm Glue Machine Reachable OpSpecs.
+Require Import Canon SemTk CountTk TableProto BddBase BddIte BddCR BddSat BddCof BddCof2 BddCtor BddEval BddPaths BddPathsCount BddReach BddExport BddDot BddMinimal BddTerm BddTerm2 Glue Machine Reachable OpSpecs FuelMono FuelMono2.
 Import ListNotations.
 Local Open Scope N_scope.
 
@@ -57,6 +57,10 @@ Section C04.
     exists r tr, V s r tr /\ (idx r = 1 \/ Reach s (idx f) (idx r)) /\ above (N.of_nat (k + length bs)) tr /\
       forall e, rsem r tr e = cofs (rsem f t) (prefix_assign k bs) e.
   Proof. exact (cofactor_is_reachable s). Qed.
+  (* size always returns (fuel three times the table capacity) *)
+  Theorem C04_size_returns mr f rf : reachable mr -> liveh mr f rf ->
+    exists bound, forall fuel, (bound <= fuel)%nat -> mstep fuel mr (HSize f) <> None.
+  Proof. exact (size_step_returns nhash khash bmask cmask0 smask0 capacity cap_ok mr f rf). Qed.
 End C04.
 
 Print Assumptions C04_structure.
@@ -68,3 +72,4 @@ Print Assumptions C04_size_stable.
 Print Assumptions C04_nodes_distinct.
 Print Assumptions C04_reachable_is_cofactor.
 Print Assumptions C04_cofactor_is_reachable.
+Print Assumptions C04_size_returns.
